@@ -4,6 +4,7 @@ import (
 	"fmt"
 	"go/token"
 	"go/types"
+	"os"
 	"sort"
 	"strings"
 
@@ -388,6 +389,9 @@ func constBounds(c *Ctx, p *Prog, m *Model) {
 	boundsProg = p
 	defer func() { boundsProg = nil }()
 	tree := printTree(p, m)
+	for _, fn := range failureRegion(p, m) {
+		tree[fn] = true // the sink, the fan-out and their helpers are on every call's path too
+	}
 	var fns []*ssa.Function
 	for fn := range tree {
 		fns = append(fns, fn)
@@ -405,7 +409,12 @@ func constBounds(c *Ctx, p *Prog, m *Model) {
 			}
 			up, why, have := idxUpper(idx, s.in.Block())
 			if !have {
-				continue // no stated belief about the range: not an instance of this rule
+				if os.Getenv("LOGGCHECK_DEBUG") != "" {
+					fmt.Fprintf(os.Stderr, "ARRAY-NOBOUND %s %s %s\n", shortName(fn), m.valDesc(s.x), p.Pos(instrPos(s.in)))
+				}
+				key := fmt.Sprintf("bounds:%s[table %s]", shortName(fn), m.valDesc(s.x))
+				r.Bad("R02.8", key, p.Pos(instrPos(s.in)), "the table has %d entries and nothing on the way bounds the position it is indexed at (no comparison with a constant, mask or narrow type): a larger position makes the logging call panic with an index out of range", s.need)
+				continue
 			}
 			key := fmt.Sprintf("bounds:%s[table %s]", shortName(fn), m.valDesc(s.x))
 			r.Check(up < s.need, "R02.8", key, p.Pos(instrPos(s.in)), fmt.Sprintf("the position is at most %d (%s), the table has %d entries", up, why, s.need),
@@ -470,17 +479,50 @@ func idxUpper(idx ssa.Value, b *ssa.BasicBlock) (int64, string, bool) {
 					if k > 0 {
 						take(k-1, fmt.Sprintf("%% %d", k))
 					}
+				case token.SHR:
+					if bt, ok := bo.X.Type().Underlying().(*types.Basic); ok && k >= 0 && k < 63 {
+						switch bt.Kind() {
+						case types.Uint8:
+							take(255>>uint(k), fmt.Sprintf("byte >> %d", k))
+						case types.Uint16:
+							take(65535>>uint(k), fmt.Sprintf("uint16 >> %d", k))
+						}
+					}
 				}
 			}
 		}
 	}
-	for _, g := range guardsOf(b) {
+	return upperFromGuards(cands, guardsOf(b), best, why, have)
+}
+
+// upperFromGuards refines an upper bound of the candidate values by the comparisons with constants in gs.
+func upperFromGuards(cands []ssa.Value, gs []guard, best int64, why string, have bool) (int64, string, bool) {
+	var fs []condFact
+	for _, g := range gs {
 		cond, neg := normCond(g.If.Cond)
-		bo, ok := cond.(*ssa.BinOp)
+		fs = append(fs, condFact{cond, (g.Succ == 0) != neg})
+	}
+	return upperFromFacts(cands, fs, best, why, have)
+}
+
+// condFact: a (normalised) condition value known to be true / false.
+type condFact struct {
+	cond  ssa.Value
+	taken bool
+}
+
+func upperFromFacts(cands []ssa.Value, fs []condFact, best int64, why string, have bool) (int64, string, bool) {
+	take := func(k int64, w string) {
+		if !have || k < best {
+			best, why, have = k, w, true
+		}
+	}
+	for _, f := range fs {
+		bo, ok := f.cond.(*ssa.BinOp)
 		if !ok {
 			continue
 		}
-		taken := (g.Succ == 0) != neg
+		taken := f.taken
 		for _, cnd := range cands {
 			op := bo.Op
 			var k int64
@@ -570,4 +612,82 @@ func arrayBoundSites(fn *ssa.Function) []boundSite {
 		}
 	}
 	return out
+}
+
+// factsOfEdge: what is known when control goes from pr to b: the guards dominating pr plus the alternatives of
+// the edge's own condition (a short-circuit a || b is a boolean phi: one alternative per way of making it true).
+func factsOfEdge(pr, b *ssa.BasicBlock) [][]condFact {
+	var base []condFact
+	for _, g := range guardsOf(pr) {
+		cond, neg := normCond(g.If.Cond)
+		base = append(base, condFact{cond, (g.Succ == 0) != neg})
+	}
+	iff := ifOf(pr)
+	if iff == nil {
+		return [][]condFact{base}
+	}
+	pol := true
+	if len(pr.Succs) == 2 && pr.Succs[1] == b && pr.Succs[0] != b {
+		pol = false
+	}
+	var expand func(cond ssa.Value, pol bool, depth int) [][]condFact
+	expand = func(cond ssa.Value, pol bool, depth int) [][]condFact {
+		c, neg := normCond(cond)
+		if neg {
+			pol = !pol
+		}
+		ph, isPhi := c.(*ssa.Phi)
+		if !isPhi || depth > 3 {
+			return [][]condFact{{condFact{c, pol}}}
+		}
+		var out [][]condFact
+		for i, e := range ph.Edges {
+			pi := ph.Block().Preds[i]
+			var edge []condFact
+			for _, g := range guardsOf(pi) {
+				cd, ng := normCond(g.If.Cond)
+				edge = append(edge, condFact{cd, (g.Succ == 0) != ng})
+			}
+			if pif := ifOf(pi); pif != nil {
+				cd, ng := normCond(pif.Cond)
+				t := pi.Succs[0] == ph.Block()
+				if _, isP2 := cd.(*ssa.Phi); !isP2 {
+					edge = append(edge, condFact{cd, t != ng})
+				}
+			}
+			if k, isC := constBool(e); isC {
+				if k == pol {
+					out = append(out, edge)
+				}
+				continue
+			}
+			for _, alt := range expand(e, pol, depth+1) {
+				out = append(out, append(append([]condFact(nil), edge...), alt...))
+			}
+		}
+		return out
+	}
+	var res [][]condFact
+	for _, alt := range expand(iff.Cond, pol, 0) {
+		res = append(res, append(append([]condFact(nil), base...), alt...))
+	}
+	return res
+}
+
+// upperOnEntry: an upper bound of v that holds whenever block b is entered, taken over every incoming edge and every
+// alternative of a short-circuit condition. ok is false when some way in gives no bound.
+func upperOnEntry(v ssa.Value, b *ssa.BasicBlock) (int64, bool) {
+	worst, have := int64(0), false
+	for _, pr := range b.Preds {
+		for _, fs := range factsOfEdge(pr, b) {
+			up, _, ok := upperFromFacts([]ssa.Value{v}, fs, 0, "", false)
+			if !ok {
+				return 0, false
+			}
+			if !have || up > worst {
+				worst, have = up, true
+			}
+		}
+	}
+	return worst, have
 }
